@@ -407,27 +407,25 @@ func (v *collator_[V]) rankComplex(first, second complex128) Rank {
 	if first == second {
 		return EqualRank
 	}
-	switch {
-	case cmp.Abs(first) < cmp.Abs(second):
-		// The magnitude of the first vector is less than the second.
-		return LesserRank
-	case cmp.Abs(first) > cmp.Abs(second):
-		// The magnitude of the first vector is greater than the second.
-		return GreaterRank
-	default:
-		// The magnitudes of the vectors are equal.
-		switch {
-		case cmp.Phase(first) < cmp.Phase(second):
-			// The phase of the first vector is less than the second.
-			return LesserRank
-		case cmp.Phase(first) > cmp.Phase(second):
-			// The phase of the first vector is greater than the second.
-			return GreaterRank
-		default:
-			// The phases of the vectors are also equal.
-			return EqualRank
-		}
+	// Normalize negative zeros so that vectors that are equal have the same phase.
+	first = complex(real(first)+0, imag(first)+0)
+	second = complex(real(second)+0, imag(second)+0)
+
+	// Rank by magnitude first and by phase second.
+	var rank = v.rankFloats(cmp.Abs(first), cmp.Abs(second))
+	if rank == EqualRank {
+		rank = v.rankFloats(cmp.Phase(first), cmp.Phase(second))
 	}
+
+	// Different vectors may still agree in both (overflowing magnitudes, NaN
+	// parts) so the real and imaginary parts break the remaining ties.
+	if rank == EqualRank {
+		rank = v.rankFloats(real(first), real(second))
+	}
+	if rank == EqualRank {
+		rank = v.rankFloats(imag(first), imag(second))
+	}
+	return rank
 }
 
 func (v *collator_[V]) rankFloats(first, second float64) Rank {
